@@ -531,6 +531,18 @@ func GenTrip(rng *rand.Rand, thorough bool, emit func(*Sx)) {
 		}
 	}
 
+	// ---- C14: long ENVID / ORCPT values whose xtext form is much longer than the value ----
+	for _, lmtp := range []bool{false, true} {
+		for _, ev := range []string{strings.Repeat("a", 99) + "+", "id=" + strings.Repeat("x", 97), strings.Repeat("+", 34), strings.Repeat("=", 100),
+			strings.Repeat("e", 100), strings.Repeat("+ ", 50), strings.Repeat("q", 300)} {
+			cfg := fullCfg(lmtp)
+			mo := &smtp.MailOptions{EnvelopeID: ev}
+			ro := &smtp.RcptOptions{OriginalRecipientType: smtp.DSNAddressTypeRFC822, OriginalRecipient: strings.Repeat("+", 40) + "@" + strings.Repeat("o", len(ev)) + ".example"}
+			calls := []TripCall{{Kind: "mail", Arg: "s@x", MO: mo}, {Kind: "rcpt", Arg: "r@x", RO: ro}, {Kind: "quit"}}
+			emit(RunTrip(TripCase{Cfg: cfg, LMTP: lmtp, Calls: calls, Extra: []*Sx{L(A("focus"), A("C14"))}}))
+		}
+	}
+
 	// ---- C16: the null reverse-path ----
 	for _, lmtp := range []bool{false, true} {
 		for _, from := range []string{""} {
